@@ -53,7 +53,7 @@ def _kind(name):
     return None
 
 
-def directory(i0: int, i1: int, i2: int, n: int, ignore_dup: bool, strict: bool, stray: bool, enc: bool) -> bool:
+def directory(i0: int, i1: int, i2: int, n: int, ignore_dup: bool, strict: bool, stray: bool, enc: bool, stray_sm: bool) -> bool:
     """
     pre: 0 <= i0 < len(REPS) and 0 <= i1 < len(REPS) and 0 <= i2 < len(REPS) and 0 <= n <= 3
     pre: i0 != i1 and i1 != i2 and i0 != i2
@@ -64,7 +64,8 @@ def directory(i0: int, i1: int, i2: int, n: int, ignore_dup: bool, strict: bool,
     try:
         names = [REPS[i0], REPS[i1], REPS[i2]][:n]
         d = "/songs/pack/song"
-        files = {d + "/" + nm: (STRAY if stray else GOOD) for nm in names}
+        # stray text independently in the SSC files (and everything else) and in the SM files: the file that is opened decides
+        files = {d + "/" + nm: (STRAY if (stray_sm if _kind(nm) == "sm" else stray) else GOOD) for nm in names}
         fs = ModelFS(files, dirs={"/songs", "/songs/pack", d}, listing={d: list(names)})
         sms = [nm for nm in names if _kind(nm) == "sm"]
         sscs = [nm for nm in names if _kind(nm) == "ssc"]
@@ -90,11 +91,11 @@ def directory(i0: int, i1: int, i2: int, n: int, ignore_dup: bool, strict: bool,
         except FileNotFoundError:
             return not sms and not sscs
         except MSDParserError:
-            return stray and strict and bool(sms or sscs)
+            return (stray if sscs else stray_sm) and strict and bool(sms or sscs)
         if not sms and not sscs:
             return False
-        if stray and strict:
-            LAST = ("strict not passed through",)
+        if (stray if sscs else stray_sm) and strict:
+            LAST = ("strict not passed through, or another file than the preferred one was loaded",)
             return False
         opens = [l for l in fs.log if l[0] == "open"][n_open_before:]
         if not opens or any(l[1] != (exp_ssc or exp_sm) for l in opens):
